@@ -53,6 +53,9 @@ def scripts(tier):
     # a command submitted as bytes that are not ASCII, alone, in front of and behind another one
     for t in ((('B', 'M1'),), (('B', 'M1'), ('P', 'M1')), (('P', 'D'), ('B', 'M1')), (('K', 'M1'), ('B', 'M1'), ('P', 'M1'))):
         out.append(('cmds', t, 'up'))
+    # QUIT through the public quit() wrapper: in flight, queued behind another command, in front of one
+    for t in ((('Q', 'S'),), (('P', 'M1'), ('Q', 'S')), (('Q', 'S'), ('K', 'M1'))):
+        out.append(('cmds', t, 'up'))
     out.append(('idle', (), 'up'))
     for nuser in (0, 1, 2):
         out.append(('auth', nuser, 'up'))
